@@ -403,3 +403,24 @@ Proof.
   exists torn_sched. destruct two_writers_torn as (e & Hin & Hv & Hc).
   exists e. split; [exact Hin|]. intro H. apply ev_completeb_sound in H. congruence.
 Qed.
+
+Lemma read_complete_all : forall k init writes nr sched e,
+  length init = k -> Forall (fun v => length v = k) writes ->
+  In e (log (run k write_prog read_prog (init_state seq_init init [writes] nr) sched)) ->
+  exists c, (c <= e_done e)%nat /\ (e_done e <= length writes)%nat /\
+            e_val e = value init writes c.
+Proof.
+  intros k init writes nr sched e Hi Hw Hin.
+  destruct (all_reads_ok k init writes Hi Hw nr sched e Hin) as (c & Hc & Hd & Hv).
+  exists c. repeat split; [lia | exact Hd | exact Hv].
+Qed.
+
+Lemma read_not_stale_all : forall k init writes nr sched e,
+  length init = k -> Forall (fun v => length v = k) writes ->
+  In e (log (run k write_prog read_prog (init_state seq_init init [writes] nr) sched)) ->
+  exists c, (e_c0 e <= c <= e_done e)%nat /\ e_val e = value init writes c.
+Proof.
+  intros k init writes nr sched e Hi Hw Hin.
+  destruct (all_reads_ok k init writes Hi Hw nr sched e Hin) as (c & Hc & Hd & Hv).
+  exists c. split; [exact Hc | exact Hv].
+Qed.
